@@ -978,4 +978,33 @@ theorem src_ss_seek0_eq_model (lfuel : Nat) (st : SS) (s : SStr) (p : Nat) (h : 
       simp [SpooledStringIO.seek0, SpooledStringIO.seek0.body, src_ss_checkClosed_eq_model, CFile.seek,
         htr, ht.1, src_ss_tell_eq_model, hc1, SStr.seek, hrel.stream, hrel.reader, hrel.real, hrel.max, hrel.chunk]
 
+/-- an unknown `mode`: ValueError, nothing moves (open object) -/
+theorem src_ss_seek_bad_mode (lfuel : Nat) (st : SS) (p mode : Int) (h : st.buffer.closed = false)
+    (hm : mode ≠ 0 ∧ mode ≠ 1 ∧ mode ≠ 2) :
+    SpooledStringIO.seek lfuel st p mode = (.error .ValueError, st) := by
+  simp [SpooledStringIO.seek, SpooledStringIO.seek.body, ss_checkClosed_open _ _ h, hm.1, hm.2.1, hm.2.2]
+
+/-- PARTIAL ties (the methods are translated and validated against CPython by the self-test; their loops — the reading
+    loop of `len`, the joining loop of `readline` — and `rollover` / `write` on top of `seek` are not yet simulated
+    against `SStr.lenLoop` / `SStr.rlJoin` / `SStr.rollover` / `SStr.write`): the closed-check comes first -/
+theorem src_ss_len_closed (lfuel : Nat) (st : SS) (h : st.buffer.closed = true) :
+    SpooledStringIO.len lfuel st = (.error .ValueError, st) := by
+  simp [SpooledStringIO.len, SpooledStringIO.len.body, src_ss_tell_eq_model, h]
+
+theorem src_ss_write_closed (lfuel : Nat) (st : SS) (b : List Char) (h : st.buffer.closed = true) :
+    SpooledStringIO.write lfuel st b = (.error .ValueError, st) := by
+  simp [SpooledStringIO.write, SpooledStringIO.write.body, src_ss_checkClosed_eq_model, h]
+
+theorem src_ss_readline_closed (lfuel : Nat) (st : SS) (length : Option Int) (h : st.buffer.closed = true) :
+    SpooledStringIO.readline lfuel st length = (.error .ValueError, st) := by
+  simp [SpooledStringIO.readline, SpooledStringIO.readline.body, src_ss_checkClosed_eq_model, h]
+
+/-- `rollover()` on an object that is already on disk does nothing (no closed-check, no fuel) -/
+theorem src_ss_rollover_rolled (lfuel : Nat) (st : SS) (h : st.buffer.real = true) :
+    SpooledStringIO.rollover lfuel st = (.ok (), st) := by
+  simp [SpooledStringIO.rollover, SpooledStringIO.rollover.body, src_ss_rolled_eq_model, h]
+
+/-- non-vacuity: a code-point traversal over multi-byte text meets the hypotheses of the traverse / seek ties -/
+example : travOk 3 (SStr.bseek ⟨⟨encode ['a', 'é', '日'], 6⟩, {}, 3, false, 100, 2⟩ 0) 0 2 = true := by decide
+
 end C18
